@@ -695,7 +695,10 @@ def run(ctx):
     if fac is None:
         raise AnalysisError("anchor vanished: _PhysPkgReader.factory")
     facx = _expand(prog, fac, local_only=True)
-    pparam = fac.node.args.args[1].arg
+    _fps = [a_.arg for a_ in fac.node.args.args if a_.arg not in ("self", "cls")]
+    if not _fps:
+        raise AnalysisError("_PhysPkgReader.factory: the package-file parameter is not recognised")
+    pparam = _fps[0]
     rows = P_.outcomes(facx.body, P_.aliases(facx))
 
     def tv(fs, src):
